@@ -547,6 +547,59 @@ impl BigUint {
     { unimplemented!() }
 }
 
+/// 64-bit word iterators (same explicit-state stand-in as U32Digits)
+pub struct U64Digits<'a> { it: core::slice::Iter<'a, u64> }
+pub open spec fn wle64(s: Seq<u64>) -> int
+    decreases s.len()
+{
+    if s.len() == 0 { 0 } else { s[0] as int + 0x1_0000_0000_0000_0000 * wle64(s.drop_first()) }
+}
+impl<'a> U64Digits<'a> {
+    pub uninterp spec fn words(&self) -> Seq<u64>;
+    pub uninterp spec fn pos(&self) -> int;
+    #[verifier::external_body]
+    pub fn next(&mut self) -> (ret: Option<u64>)
+        ensures final(self).words() == old(self).words(),
+                0 <= old(self).pos() <= old(self).words().len(),
+                old(self).pos() < old(self).words().len() ==> ret == Some(old(self).words()[old(self).pos()]) && final(self).pos() == old(self).pos() + 1,
+                old(self).pos() >= old(self).words().len() ==> ret.is_none() && final(self).pos() == old(self).pos()
+    { unimplemented!() }
+}
+impl BigUint {
+    #[verifier::external_body]
+    pub fn iter_u64_digits(&self) -> (ret: U64Digits<'_>)
+        ensures wle64(ret.words()) == self@, ret.pos() == 0,
+                ret.words().len() > 0 ==> ret.words().last() != 0
+    { unimplemented!() }
+    /// number of trailing zero BITS, None for zero
+    #[verifier::external_body]
+    pub fn trailing_zeros(&self) -> (ret: Option<u64>)
+        ensures self@ == 0 <==> ret.is_none(),
+                ret.is_some() ==> (self@ as int) % pow2i(ret.unwrap() as int) == 0 && ((self@ as int) / pow2i(ret.unwrap() as int)) % 2 == 1
+    { unimplemented!() }
+}
+impl BigInt {
+    #[verifier::external_body]
+    pub fn iter_u64_digits(&self) -> (ret: U64Digits<'_>)
+        ensures wle64(ret.words()) == iabs(self@), ret.pos() == 0,
+                ret.words().len() > 0 ==> ret.words().last() != 0
+    { unimplemented!() }
+    #[verifier::external_body]
+    pub fn iter_u32_digits(&self) -> (ret: U32Digits<'_>)
+        ensures wle(ret.words()) == iabs(self@), ret.pos() == 0,
+                ret.words().len() > 0 ==> ret.words().last() != 0,
+                ret.words().len() < 0x1000_0000_0000_0000
+    { unimplemented!() }
+    #[verifier::external_body]
+    pub fn into_parts(self) -> (ret: (Sign, BigUint))
+        ensures ret.0 == sign_of(self@), ret.1@ == iabs(self@)
+    { unimplemented!() }
+    #[verifier::external_body]
+    pub fn to_biguint(&self) -> (ret: Option<BigUint>)
+        ensures self@ < 0 <==> ret.is_none(), ret.is_some() ==> ret.unwrap()@ == self@
+    { unimplemented!() }
+}
+
 /// size assumption in bit form: |n| < 2^(2^60)
 #[verifier::external_body]
 pub proof fn lemma_size_bits(n: &BigUint) ensures (n@ as int) < pow2i(0x1000_0000_0000_0000) {}
@@ -708,6 +761,34 @@ pub assume_specification [i64::pow] (b: i64, e: u32) -> (ret: i64)
 pub assume_specification [i128::pow] (b: i128, e: u32) -> (ret: i128)
     requires i128::MIN <= vstd::arithmetic::power::pow(b as int, e as nat) <= i128::MAX
     ensures ret == vstd::arithmetic::power::pow(b as int, e as nat);
+
+// ------------------------------------------------------------------ more std integer / Option methods (so that changed code using them
+// is decided instead of answering "unsupported"): each contract is the documented meaning; panics / overflow are preconditions
+pub assume_specification [u64::abs_diff] (a: u64, b: u64) -> (ret: u64) ensures ret == (if a >= b { a - b } else { b - a });
+pub assume_specification [u32::abs_diff] (a: u32, b: u32) -> (ret: u32) ensures ret == (if a >= b { a - b } else { b - a });
+pub assume_specification [usize::abs_diff] (a: usize, b: usize) -> (ret: usize) ensures ret == (if a >= b { a - b } else { b - a });
+pub assume_specification [i64::abs_diff] (a: i64, b: i64) -> (ret: u64) ensures ret == (if a >= b { a - b } else { b - a });
+pub assume_specification [i64::unsigned_abs] (a: i64) -> (ret: u64) ensures ret == (if a >= 0 { a as int } else { -(a as int) });
+pub assume_specification [i128::unsigned_abs] (a: i128) -> (ret: u128) ensures ret == (if a >= 0 { a as int } else { -(a as int) });
+pub assume_specification [i64::signum] (a: i64) -> (ret: i64) ensures ret == (if a > 0 { 1int } else if a < 0 { -1int } else { 0int });
+pub assume_specification [i64::is_positive] (a: i64) -> (ret: bool) ensures ret == (a > 0);
+pub assume_specification [i64::is_negative] (a: i64) -> (ret: bool) ensures ret == (a < 0);
+pub assume_specification [i64::saturating_add] (a: i64, b: i64) -> (ret: i64)
+    ensures ret == (if a + b > i64::MAX { i64::MAX as int } else if a + b < i64::MIN { i64::MIN as int } else { a + b });
+pub assume_specification [i64::checked_abs] (a: i64) -> (ret: Option<i64>)
+    ensures ret == (if a == i64::MIN { None::<i64> } else if a >= 0 { Some(a) } else { Some((-(a as int)) as i64) });
+pub assume_specification [i64::rem_euclid] (a: i64, b: i64) -> (ret: i64)
+    requires b != 0, !(a == i64::MIN && b == -1)
+    ensures b > 0 ==> ret == (a as int) % (b as int);
+pub assume_specification [i64::div_euclid] (a: i64, b: i64) -> (ret: i64)
+    requires b != 0, !(a == i64::MIN && b == -1)
+    ensures b > 0 ==> ret == (a as int) / (b as int);
+pub assume_specification<T, U> [Option::<T>::and] (a: Option<T>, b: Option<U>) -> (ret: Option<U>)
+    ensures ret == (if a.is_some() { b } else { None::<U> });
+pub assume_specification<T> [Option::<T>::xor] (a: Option<T>, b: Option<T>) -> (ret: Option<T>)
+    ensures ret == (if a.is_some() && b.is_none() { a } else if a.is_none() && b.is_some() { b } else { None::<T> });
+
+pub assume_specification [<u64 as From<bool>>::from] (b: bool) -> (ret: u64) ensures ret == (if b { 1u64 } else { 0u64 });
 
 // core::num::NonZeroU64 / NonZeroU8 / NonZeroUsize stand-ins (core's NonZero<T> is generic over an unstable
 // trait and cannot be given an external type specification); same method names, assumed semantics
